@@ -159,8 +159,17 @@ def contents(P, F, fn, origin, site=None, _depth=0):
                                                 [c1[1] for ee, c1 in q.dominating_conditions(P, owner, mb) if c1[0] == "bool"], body=owner, site=s2, how="push"))
                 elif name in BULK:
                     src = m[2][0] if m[2] else ("unknown", "")
-                    if q.enclosing_loops(P, owner, mb):
-                        out.append(Contribution("opaque", site=s2, how="bulk append inside a loop"))
+                    lp = q.enclosing_loops(P, owner, mb)
+                    if lp:
+                        # `for part in [a, b, c] { v.extend_from_slice(part) }`: the parts of the literal, in order
+                        e = peel(src)
+                        arr = peel(e[2]) if e[0] == "bound" and e[1] == "elem" else ("?",)
+                        if len(lp) == 1 and arr[0] == "agg" and arr[1] in ("array", "vec") and not q.chain_adapters(lp[0][1]) and \
+                                not _elem_conds(q.conditions_at(P, F, owner, mb)):
+                            for k, v in arr[2]:
+                                out.extend(contents(P, F, owner, v, s2, _depth + 1))
+                        else:
+                            out.append(Contribution("opaque", site=s2, how="bulk append inside a loop"))
                     else:
                         for c in iter_contribs(P, F, owner, src, s2):
                             if c.site is None:
